@@ -87,6 +87,133 @@ def chain_cases(backends: tuple = ("asyncio", "trio")):
                                        "b_async": b_async, "api": api, "nested": nested, "racers": racers, "b_first": b_first, "cps": 1}
 
 
+def retry_cases(backends: tuple = ("asyncio", "trio")):
+    """An async factory whose first call fails while other lookups of the same pair are already waiting."""
+    for racers in (2, 3, 4):
+        for cps in (0, 1, 2):
+            for api in ("m_async", "f_async", "inj_async"):
+                for nested in (False, True):
+                    for stagger in (0, 1):
+                        for backend in backends:
+                            yield {"kind": "reentrant", "family": "retry", "backend": backend, "sched_seed": 0, "racers": racers,
+                                   "cps": cps, "api": api, "nested": nested, "stagger": stagger}
+
+
+def run_retry(case: dict, prop: str, classes: set[str]) -> Outcome:
+    out = Outcome()
+    st: dict[str, Any] = {"calls": 0, "harness_exc": None}
+    api = case["api"]
+    desc = (f"[{case['racers']} tasks look one async factory up through {api}; its first call raises after {case['cps']} checkpoint(s); "
+            f"{'child' if case['nested'] else 'same'} context]")
+
+    class Broken(Exception):
+        pass
+
+    def disc(cls: str, bucket: str, msg: str) -> None:
+        if cls in classes:
+            out.add(cls, f"{cls}:retry-{bucket}", msg + " " + desc)
+
+    async def main() -> None:
+        from asphalt.core import Context, ResourceEvent, get_resource, inject, resource
+
+        products: list = []
+
+        async def factory() -> Any:
+            st["calls"] += 1
+            n = st["calls"]
+            await checkpoints(case["cps"])
+            if n == 1:
+                raise Broken("first call")
+            o = R0(("product", n))
+            products.append(o)
+            await checkpoints(case["cps"])
+            return o
+
+        async def one(ctx: Any, k: int, results: list) -> None:
+            await checkpoints(k * case["stagger"])
+            try:
+                if api == "m_async":
+                    r = await ctx.get_resource(R0, NAME)
+                elif api == "f_async":
+                    r = await get_resource(R0, NAME)
+                else:
+                    async def afn(*, r=resource(NAME)):  # type: ignore[no-untyped-def]
+                        return r
+                    afn.__annotations__ = {"r": R0}
+                    r = await inject(afn)()
+                results.append(("ok", r))
+            except Broken as exc:
+                results.append(("broken", exc))
+            except Exception as exc:
+                results.append(("raise", exc))
+
+        async def scenario(ctx: Any) -> None:
+            cm = ctx.resource_added.stream_events(max_queue_size=1000)
+            it = await cm.__aenter__()
+            results: list = []
+            async with anyio.create_task_group() as tg:
+                for k in range(case["racers"]):
+                    tg.start_soon(one, ctx, k, results)
+            sentinel = ResourceEvent((), "__verif_sentinel__", None, False)
+            ctx.resource_added.dispatch(sentinel)
+            events = []
+            while True:
+                ev = await it.__anext__()
+                if ev is sentinel:
+                    break
+                events.append((tuple(x.__name__ for x in ev.resource_types), ev.resource_name, bool(ev.is_factory)))
+            await cm.__aexit__(None, None, None)
+            oks = [r for k_, r in results if k_ == "ok"]
+            other = [r for k_, r in results if k_ == "raise"]
+            broken = [r for k_, r in results if k_ == "broken"]
+            if other:
+                disc("generation", "lookup-raised", f"a lookup raised {short_exc(other[0])}")
+                return
+            if len(broken) != 1:
+                disc("generation", "failure-seen-by", f"{len(broken)} lookups raised the factory's error; only the one that ran the failing call may")
+            if len(products) != 1 or st["calls"] != 2:
+                disc("generation", "factory-calls", f"the factory was called {st['calls']} times and produced {len(products)} objects; after one "
+                     f"failed call exactly one more call may happen for the context")
+            if any(o is not oks[0] for o in oks) or (oks and products and oks[0] is not products[0]):
+                disc("generation", "different-objects", f"the successful lookups returned {len({id(o) for o in oks})} different objects")
+                disc("identity", "different-objects", f"the successful lookups returned {len({id(o) for o in oks})} different objects")
+            later = await ctx.get_resource(R0, NAME)
+            if oks and later is not oks[0]:
+                disc("identity", "pair-changed-object", "a later lookup returned another object than the racing lookups")
+            if events != [(("R0",), NAME, False)]:
+                disc("event", "log", f"events {events}, expected exactly one generation event")
+
+        async with Context() as root:
+            root.add_resource_factory(factory, NAME, types=[R0])
+            if case["nested"]:
+                async with Context() as child:
+                    await scenario(child)
+            else:
+                await scenario(root)
+
+    async def guarded() -> None:
+        try:
+            await main()
+        except BaseException as exc:
+            for leaf in flatten_exc(exc):
+                if isinstance(leaf, HarnessError) or (isinstance(leaf, Exception) and innermost_is_harness(leaf)):
+                    st["harness_exc"] = leaf
+            raise
+
+    try:
+        run_virtual(case["backend"], guarded, sched_seed=case.get("sched_seed", 0))
+    except Deadlock as exc:
+        disc("generation", "deadlock", f"deadlocked: {exc}")
+    except BaseException as exc:
+        if st["harness_exc"] is not None or isinstance(exc, HarnessError):
+            raise HarnessError(f"harness exception inside the run: {short_exc(st['harness_exc'] or exc)}") from exc
+        disc("generation", "history-raised:" + type(exc).__name__, f"history raised {short_exc(exc)}")
+    out.labels = sorted({case["backend"], "failing-first-call-with-waiters", "api=" + api, f"racers={case['racers']}"})
+    out.nontrivial = True
+    out.trace = {"retry": True}
+    return out
+
+
 def run_chain(case: dict, prop: str, classes: set[str]) -> Outcome:
     out = Outcome()
     st: dict[str, Any] = {"a": 0, "b": 0, "harness_exc": None}
@@ -240,6 +367,8 @@ def run_chain(case: dict, prop: str, classes: set[str]) -> Outcome:
 def run_case(case: dict, prop: str, classes: set[str]) -> Outcome:
     if case.get("family") == "chain":
         return run_chain(case, prop, classes)
+    if case.get("family") == "retry":
+        return run_retry(case, prop, classes)
     out = Outcome()
     st: dict[str, Any] = {"calls": 0, "inner_errors": [], "harness_exc": None}
     ftypes, inner, t, api = case["ftypes"], case["inner"], case["t"], case["api"]
